@@ -41,6 +41,10 @@ B32LongCases == \A b \in 0..255 : \A n \in {13, 14, 15, 20, 30} : \A p \in {1, 2
 \* generator): g goroutines call it at the same time on a character set of c runes of mixed widths; every result
 \* must still have exactly n runes of the set
 StrConcCases == \A g \in {2, 8} : \A c \in {2, 5, 7} : Emit([fn |-> "strconc", s |-> <<>>, a |-> <<g, c>>, out |-> <<>>])
+\* the character set of the package-level generator is replaced (SetStrGeneratorCharSet) while g goroutines are inside
+\* String(n): a call that overlaps a replacement draws all its runes from ONE of the sets configured during the call.
+\* The sets are pairwise disjoint and of different sizes (a smaller set after a larger one and the other way round).
+StrSwitchCases == \A g \in {1, 4} : \A order \in {"shrinking", "growing", "mixed"} : Emit([fn |-> "strswitch", s |-> <<>>, a |-> <<g, order>>, out |-> <<>>])
 \* NewIdGenerator(randBit): <= 1 -> 16, > 22 -> 22
 EffBits(rb) == IF rb <= 1 THEN 16 ELSE IF rb > 22 THEN 22 ELSE rb
 \* the time field has 41 bits whatever randBit is: generators whose start time lies e milliseconds in the past, with e
@@ -48,6 +52,10 @@ EffBits(rb) == IF rb <= 1 THEN 16 ELSE IF rb > 22 THEN 22 ELSE rb
 \* (TLC integers have 32 bits: e is written <<b, k, d>> for b * 2^k + d)
 \* (a start time in the future - clock skew, a launch date ahead - gives a negative elapsed time: ids stay non-negative)
 Elapsed == {<<0, 0, 12345678>>, <<1, 40, -3>>, <<1, 40, 5>>, <<1, 41, -100000>>, <<0, 0, -60000>>, <<0, 0, -86400000>>}
+\* the id generator when the system's entropy source fails or comes up short (crypto/rand.Reader replaced by a reader
+\* that returns an error at once / after one byte): the shape of the ids is the same
+IdEntropyCases == \A rb \in {-1, 2, 8, 16, 22, 30} : \A fault \in {"error", "short", "eof"} :
+    Emit([fn |-> "identropy", s |-> <<>>, a |-> <<rb, fault>>, out |-> <<EffBits(rb)>>])
 IdLayoutCases == \A rb \in -2..26 : \A e \in Elapsed :
     Emit([fn |-> "idlayout", s |-> <<>>, a |-> <<rb>> \o e, out |-> <<EffBits(rb)>>])
 
@@ -95,6 +103,8 @@ ASSUME B32BadCases
 ASSUME B32LongCases
 ASSUME StrConcCases
 ASSUME IdLayoutCases
+ASSUME StrSwitchCases
+ASSUME IdEntropyCases
 ASSUME StrGenCases
 ASSUME CountSane
 ASSUME CountCases
